@@ -23,7 +23,7 @@ Notation kof := (kind_of term).
 Notation eqv := (equiv term).
 Notation sjoin := (step_join term find_tables).
 Notation vtab := (validate_table term fields_tables).
-Notation cmpt := (compat term find_tables).
+Notation cmpt := (compat term).
 
 (* ---- slot sets ------------------------------------------------------------------------------ *)
 Lemma smem_app : forall x a b, smem x (a ++ b) = smem x a || smem x b.
@@ -311,34 +311,30 @@ Lemma base_tables_with : forall fr upd w n (body : term),
   base_tables term fr upd (w ++ [(n, body)]) = base_tables term fr upd w ++ [Some (Wq n)].
 Proof. intros. unfold base_tables. rewrite map_app. simpl. rewrite <- app_assoc. reflexivity. Qed.
 
-Lemma auto_alias_with : forall bt n item, auto_alias (bt ++ [Some (Wq n)]) item = auto_alias bt item.
-Proof.
-  intros bt n item. destruct item as [m [al|]| |]; try reflexivity.
-  unfold auto_alias. rewrite omem_app. simpl. rewrite orb_false_r. reflexivity.
-Qed.
-
-Lemma omem_retag : forall n cnt item item1 cnt1 l, tag_item cnt item = (item1, cnt1) ->
-  omem (Some (Wq n)) (map (retag item item1) l) = omem (Some (Wq n)) l.
-Proof.
-  intros n cnt item item1 cnt1 l Ht. induction l as [|ft r IH]; [reflexivity|].
-  simpl. rewrite IH. f_equal.
-  unfold retag. destruct item as [| |[al|] id]; try reflexivity.
-  destruct ft as [[| |[al'|] id']|]; try reflexivity.
-  destruct (String.eqb id id'); [|reflexivity].
-  simpl in Ht. inversion Ht. reflexivity.
-Qed.
-
 Lemma omem_snoc : forall x l y, omem x (l ++ [y]) = omem x l || otbl_eqb x y.
 Proof. intros. rewrite omem_app. cbn [omem]. rewrite orb_false_r. reflexivity. Qed.
 
+Lemma taken_names_with : forall p bt joins n, p n = false ->
+  filter p (taken_names term (bt ++ [Some (Wq n)]) joins) = filter p (taken_names term bt joins).
+Proof.
+  intros p bt joins n Hp. unfold taken_names. rewrite !flat_map_app, !filter_app. simpl. rewrite Hp, app_nil_r. reflexivity.
+Qed.
+
+Lemma auto_alias_with : forall bt joins n item,
+  match item with Tab m None => String.prefix m n = false | _ => True end ->
+  auto_alias term (bt ++ [Some (Wq n)]) joins item = auto_alias term bt joins item.
+Proof.
+  intros bt joins n item H. destruct item as [m [al|]| |]; try reflexivity.
+  unfold auto_alias. rewrite omem_snoc. simpl otbl_eqb. rewrite orb_false_r.
+  unfold first_free. rewrite (taken_names_with _ bt joins n H). reflexivity.
+Qed.
+
 Lemma join_valid_with : forall bt joins item n tabs,
-  omem (Some (Wq n)) tabs = false ->
   join_valid term (bt ++ [Some (Wq n)]) joins item tabs = join_valid term bt joins item tabs.
 Proof.
-  intros bt joins item n tabs. unfold join_valid. induction tabs as [|ft r IH]; intro H; [reflexivity|].
-  cbn [omem] in H. apply orb_false_iff in H. destruct H as [H1 H2].
-  cbn [forallb]. rewrite (IH H2). f_equal. destruct ft as [t|]; [|reflexivity]. rewrite omem_snoc.
-  rewrite (otbl_eqb_sym (Some t)), H1. rewrite orb_false_r. reflexivity.
+  intros bt joins item n tabs. unfold join_valid. induction tabs as [|ft r IH]; [reflexivity|].
+  cbn [forallb]. rewrite IH. f_equal. destruct ft as [[m al|m|al id]|]; try reflexivity;
+    rewrite omem_snoc; simpl otbl_eqb; rewrite orb_false_r; reflexivity.
 Qed.
 
 Lemma step_join_with : forall fr upd w joins cnt item how spec n body,
@@ -347,9 +343,12 @@ Lemma step_join_with : forall fr upd w joins cnt item how spec n body,
 Proof.
   intros fr upd w joins cnt item how spec n body Hc.
   unfold step_join. destruct (tag_item cnt item) as [item1 cnt1] eqn:Ht.
-  rewrite base_tables_with. destruct spec; try reflexivity; rewrite auto_alias_with; try reflexivity.
-  simpl in Hc. apply negb_true_iff in Hc.
-  rewrite join_valid_with; [reflexivity|]. rewrite (omem_retag _ _ _ _ _ _ Ht). exact Hc.
+  rewrite base_tables_with.
+  assert (Ha : auto_alias term (base_tables term fr upd w ++ [Some (Wq n)]) joins item1
+               = auto_alias term (base_tables term fr upd w) joins item1).
+  { apply auto_alias_with. destruct item as [m [al|]| |[al|] id]; simpl in Ht; inversion Ht; subst; try exact I.
+    simpl in Hc. apply negb_true_iff in Hc. exact Hc. }
+  destruct spec; try rewrite Ha; try reflexivity. rewrite join_valid_with. reflexivity.
 Qed.
 
 Lemma swap_with_join : forall s n body item how spec a b,
@@ -483,7 +482,7 @@ Proof.
   intros x Hx. apply Ha. apply (kperm_in _ _ H). exact Hx.
 Qed.
 
-Lemma fragment_kperm : forall a b, kperm a b -> fragment term find_tables a -> fragment term find_tables b.
+Lemma fragment_kperm : forall a b, kperm a b -> fragment term a -> fragment term b.
 Proof.
   intros a b H Ha c1 c2 H1 H2. apply Ha; apply (kperm_in _ _ H); assumption.
 Qed.
@@ -510,7 +509,7 @@ Qed.
 Lemma all_commuting_app : forall a b, all_commuting term (a ++ b) = all_commuting term a && all_commuting term b.
 Proof. intros. unfold all_commuting. apply forallb_app. Qed.
 
-Lemma run_kperm : forall l1 l2, kperm l1 l2 -> all_commuting term l1 = true -> fragment term find_tables l1 ->
+Lemma run_kperm : forall l1 l2, kperm l1 l2 -> all_commuting term l1 = true -> fragment term l1 ->
   forall s q1, rn s l1 = Ok q1 -> exists q2, rn s l2 = Ok q2 /\ eqv q1 q2.
 Proof.
   intros l1 l2 H. induction H; intros Hc Hf s q1 Hr.
@@ -532,14 +531,14 @@ Qed.
 
 (* any interleaving that keeps the relative order of the calls of every kind *)
 Theorem interleaving_commutes : forall s0 l1 l2,
-  all_commuting term l1 = true -> fragment term find_tables l1 -> same_kind_order term l1 l2 ->
+  all_commuting term l1 = true -> fragment term l1 -> same_kind_order term l1 l2 ->
   forall q1, rn s0 l1 = Ok q1 -> exists q2, rn s0 l2 = Ok q2 /\ eqv q1 q2.
 Proof.
   intros s0 l1 l2 Hc Hf Hk q1 Hr.
   exact (run_kperm l1 l2 (same_kind_order_kperm l1 l2 Hk) Hc Hf s0 q1 Hr).
 Qed.
 
-Lemma fragmentb_spec : forall l, fragmentb term find_tables l = true -> fragment term find_tables l.
+Lemma fragmentb_spec : forall l, fragmentb term l = true -> fragment term l.
 Proof.
   intros l H c1 c2 H1 H2. unfold fragmentb in H. rewrite forallb_forall in H.
   specialize (H c1 H1). rewrite forallb_forall in H. exact (H c2 H2).
